@@ -53,7 +53,15 @@
             every call against scripted servers over HTTP, req.GetBody set:
                                     7 ckey host ncalls call*
               call = nfresh fresh* nresp (status <vtable> <www:bytes> <info:bytes>)* pid nreq <ohdr>*
-              (as in kind 5; status matters for the first response of a call that presents a stored token) *)
+              (as in kind 5; status matters for the first response of a call that presents a stored token)
+   kind 8   a history of AuthenticatedDo calls on ONE ClientPeerIDAuth whose requests name different
+            hostnames and go to different servers (every call against scripted servers over HTTP,
+            req.GetBody set):
+                                    8 ckey eatom ncalls hcall*
+              hcall = rhost uhost call        (call as in kind 7)
+              rhost = the atom of req.Host (eatom, the atom the harness gave the empty string, when the
+              request was built by hand and has no Host), uhost = the atom of req.URL.Host (where the
+              transport connects, and what it sends as Host when req.Host is empty). *)
 From Coq Require Import List NArith ZArith Bool.
 From Verif Require Import lib.Wire c08.Varint c08.SymCrypto gen.Consts_c19 c19.Model.
 Import ListNotations.
@@ -579,6 +587,94 @@ Fixpoint monitor_calls (k h : N) (last : option (list term * list term)) (i : Z)
       else monitor_calls k h last (i + 1) r
   end.
 
+(* ---- kind 8: a history of AuthenticatedDo calls across hostnames -------------------------- *)
+Record call8 := mkHCall { c8_rhost : N; c8_uhost : N; c8_call : call7 }.
+
+Fixpoint get_hcalls (n : nat) (l : list Z) : option (list call8 * list Z) :=
+  match n with
+  | O => Some ([], l)
+  | S k =>
+      do (rh, r0) <- get_n l; do (uh, r1) <- get_n r0;
+      do (cs, r2) <- get_calls 1 r1;
+      match cs with
+      | [c] => do (rest, r3) <- get_hcalls k r2; Some (mkHCall rh uh c :: rest, r3)
+      | _ => None
+      end
+  end.
+
+Definition decode8 (l : list Z) : option (N * N * list call8) :=
+  do (k, r) <- get_n l; do (e, r1) <- get_n r; do (n, r2) <- get_z r1;
+  if small n then
+    do (cs, r3) <- get_hcalls (Z.to_nat n) r2;
+    match r3 with [] => Some (k, e, cs) | _ => None end
+  else None.
+
+Fixpoint conform_hcalls (k : N) (m : tmap) (i : Z) (calls : list call8) : list Z :=
+  match calls with
+  | [] => []
+  | hc :: r =>
+      let c := c8_call hc in
+      match auth_call_h_i k m (c8_rhost hc) (c8_uhost hc) (ca_resps c) (ca_fresh c) with
+      | None => malformed 81
+      | Some (pid, qs, m') =>
+          if negb (z_of_on pid =? ca_pid c) then mism 80 [i; z_of_on pid; ca_pid c]
+          else if negb (list_eqb ohdr_eqb qs (ca_reqs c)) then mism 81 [i; zlen qs; zlen (ca_reqs c)]
+          else conform_hcalls k m' (i + 1) r
+      end
+  end.
+
+(* the hostnames a request names: its Host; for a request without a Host the empty
+   name (which is what the handshake is bound to) or the host of its URL (which is
+   what the transport sends) - the property does not say which, either is accepted *)
+Definition names (e : N) (hc : call8) : list N :=
+  if N.eqb (c8_rhost hc) e then [e; c8_uhost hc] else [c8_rhost hc].
+
+Definition lasts := list (N * (list term * list term)).
+
+Fixpoint find_last (h : N) (ls : lasts) : option (list term * list term) :=
+  match ls with
+  | [] => None
+  | (h', x) :: r => if N.eqb h h' then Some x else find_last h r
+  end.
+
+(* the first of the named hostnames for which the values received in this call prove p *)
+Fixpoint bound_host (k : N) (F V : list term) (p : N) (hs : list N) : option N :=
+  match hs with
+  | [] => None
+  | h :: r => if proves k h F V p then Some h else bound_host k F V p r
+  end.
+
+Definition token_ok (k : N) (ls : lasts) (p : N) (hs : list N) : bool :=
+  existsb (fun h => match find_last h ls with Some (F, V) => proves k h F V p | None => false end) hs.
+
+(* The property along a history across hostnames.  [ls] = for every hostname H, the random
+   draws and received values of the most recent call that returned an id through a
+   handshake bound to H (a received signature over one of that call's challenges, the
+   client's key and H).  A call that runs a handshake must prove the id it returns in
+   that very call, for a hostname its request names; a call that only presents a stored
+   token must return an id that the most recent handshake bound to a hostname THIS
+   request names proved - a token obtained for one hostname says nothing about the
+   server behind another. *)
+Fixpoint monitor_hcalls (k e : N) (ls : lasts) (i : Z) (calls : list call8) : list Z :=
+  match calls with
+  | [] => []
+  | hc :: r =>
+      let c := c8_call hc in
+      if 0 <=? ca_pid c then
+        let p := Z.to_N (ca_pid c) in
+        if is_token_path (ca_reqs c) then
+          if token_ok k ls p (names e hc) then monitor_hcalls k e ls (i + 1) r
+          else viol 9 [i; ca_pid c]
+        else
+          let F := map atom (ca_fresh c) in
+          let V := resp_values (ca_resps c) in
+          match bound_host k F V p (names e hc) with
+          | Some h => monitor_hcalls k e ((h, (F, V)) :: ls) (i + 1) r
+          | None => viol 10 [i; ca_pid c]
+          end
+      else monitor_hcalls k e ls (i + 1) r
+  end.
+
 (* ---- the two entry points -------------------------------------------------------------- *)
 Definition conform_case (l : list Z) : list Z :=
   match l with
@@ -593,6 +689,10 @@ Definition conform_case (l : list Z) : list Z :=
   | 7 :: r => match decode7 r with
               | Some (k, host, cs) => conform_calls k host None 0 cs
               | None => malformed 7
+              end
+  | 8 :: r => match decode8 r with
+              | Some (k, _, cs) => conform_hcalls k [] 0 cs
+              | None => malformed 8
               end
   | _ => malformed 0
   end.
@@ -610,6 +710,10 @@ Definition monitor_case (l : list Z) : list Z :=
   | 7 :: r => match decode7 r with
               | Some (k, host, cs) => monitor_calls k host None 0 cs
               | None => malformed 7
+              end
+  | 8 :: r => match decode8 r with
+              | Some (k, e, cs) => monitor_hcalls k e [] 0 cs
+              | None => malformed 8
               end
   | _ => malformed 0
   end.
